@@ -55,11 +55,16 @@ pub fn c04_judge(g: &GCase, a: &Analysis, out: &Outcome) -> Result<(), Failure> 
 }
 
 fn c04_test(raw: &RawGrammar, st: &mut Stats) -> Result<(), Failure> {
+    let t0 = std::time::Instant::now();
     let g = grammar_case(raw);
+    let t1 = t0.elapsed();
     let Ok(a) = Analysis::new(&g.cfg) else {
         st.discard("reference LR(1) collection exceeds cap");
         return Ok(());
     };
+    if t0.elapsed().as_millis() > 500 && std::env::var("VERIF_DEBUG").is_ok() {
+        eprintln!("DEBUG c04 build {:?} analysis {:?} lr1 {} lalr {} rules {} text {}", t1, t0.elapsed() - t1, a.lr1.states.len(), a.lalr.states.len(), g.cfg.rules.len(), g.text.len());
+    }
     let sh = classify(st, &g, &a);
     // self-check of the reference: SLR(1) conflict-free => LALR(1) conflict-free => LR(1) conflict-free
     if (a.slr_conflict_free && !a.lalr_ok()) || (a.lalr_ok() && !a.lr1_tables.conflict_free()) {
@@ -92,7 +97,7 @@ pub fn c04_run(ctx: &Ctx) -> i32 {
     let mut rep = Report::new(ctx, C04_RULE);
     rep.assumptions = vec![
         "reference LALR(1) = canonical LR(1) collection merged by core, written from the textbook definition; grammars whose LR(1) collection exceeds 3000 states are discarded and counted".into(),
-        "grammars are bounded (<= 10 nonterminals, <= 10 terminals, right-hand sides <= 6) except the repository's own kiki.kiki seed".into(),
+        "random grammars are bounded (<= 12 nonterminals, <= 14 terminals, <= 12 variants per enum, right-hand sides <= 14); larger ones come from the seed corpus (kiki.kiki: 24 nonterminals, 67 states) and from six scaled families (<= 300 nonterminals, <= 120 terminals, > 256 states, rules <= 40 symbols; ~1 % of the seed-based cases)".into(),
     ];
     regress(ctx, &mut rep, "C04", c04_replay);
     let cases = ctx.budget(400_000, 4_000_000);
